@@ -458,6 +458,9 @@ def to_term(v, shape):
         return v.t
     if isinstance(shape, Opaque) and v.tag == "opaque" and v.sort == shape.sort:
         return v.t
+    if isinstance(shape, Opaque) and v.tag in ("tuple", "obj", "dict", "list", "fn"):
+        # an arbitrary value stored into a sequence of abstract entries: represented by a fresh abstract entry
+        return z3.FreshConst(usort(shape.sort), "entry")
     if shape is Fn and v.tag == "opaque" and v.sort == "Fn":
         return v.t
     if shape is Fn and v.tag == "fn":
